@@ -682,4 +682,186 @@ def serialiseOffsets : List (Nat × Nat) → Bytes
   | [(s, l)] => natDigits 10 s ++ 44 :: natDigits 10 l
   | (s, l) :: rest => natDigits 10 s ++ 44 :: (natDigits 10 l ++ 10 :: serialiseOffsets rest)
 
+/-! ## `_deserialise_offsets` (breezy/bzr/smart/vfs.py: ReadvRequest) -/
+
+/-- `bytes.split(sep)`: always at least one field -/
+def splitByte (sep : UInt8) : Bytes → List Bytes
+  | [] => [[]]
+  | c :: cs =>
+    if c = sep then [] :: splitByte sep cs
+    else match splitByte sep cs with
+      | [] => [[c]]          -- unreachable; splitByte is never empty
+      | f :: fs => (c :: f) :: fs
+
+/-- one line `start,length`: `start, length = line.split(b","); (int(start), int(length))`;
+`none` = ValueError (not exactly two fields, or a field that is not a digit string) -/
+def parseOffsetLine (line : Bytes) : Option (Nat × Nat) :=
+  match splitByte 44 line with
+  | [a, b] =>
+    match parseNat 10 a, parseNat 10 b with
+    | some x, some y => some (x, y)
+    | _, _ => none
+  | _ => none
+
+/-- `_deserialise_offsets(text)`: the non-empty lines of `text.split(b"\n")` -/
+def deserialiseOffsets (text : Bytes) : Option (List (Nat × Nat)) :=
+  ((splitByte 10 text).filter (fun l => !l.isEmpty)).mapM parseOffsetLine
+
+/-! ## ConventionalRequestHandler (message.py) on the event stream
+
+The calls it makes on its `request_handler` (`SmartServerRequestHandler`) are recorded
+in order.  Whether the verb's `do()` returns a response at once (`w = false`:
+`request_handler.finished_reading` after `args_received`) or waits for a body
+(`w = true`) is a property of the verb, here a parameter; a body-taking verb is assumed
+to answer in `do_end()` (as every registered verb does). -/
+
+inductive RqExp where
+  | args | body | error | end_ | nothing
+  deriving DecidableEq, Repr
+
+inductive RqCall where
+  | args (raw : Bytes)             -- request_handler.args_received(bdecode(raw))
+  | body (b : Bytes)               -- request_handler.accept_body(b)
+  | postBodyError (raw : Bytes)    -- request_handler.post_body_error_received(bdecode(raw))
+  | end_                           -- request_handler.end_received()
+  deriving DecidableEq, Repr
+
+inductive RqErr where
+  | unexpectedByte      -- "Unexpected message part: byte(...)"
+  | badStatusByte       -- "Non-success status byte in request body"
+  | unexpectedStruct    -- "Unexpected message part: structure(...)"
+  | unexpectedBytes     -- "Unexpected message part: bytes(...)"
+  | prematureEnd        -- "End of message received prematurely"
+  deriving DecidableEq, Repr
+
+structure Rq where
+  expecting : RqExp := .args
+  calls : List RqCall := []
+  finished : Bool := false        -- request_handler.finished_reading
+  responses : Nat := 0            -- responder.send_response calls
+  deriving DecidableEq, Repr
+
+/-- one message-handler callback of `ConventionalRequestHandler` -/
+def Rq.step (w : Bool) (r : Rq) : Ev → Except RqErr Rq
+  | .headers _ => .ok r
+  | .byte b =>
+    if r.expecting = .body then
+      if b = 83 then .ok { r with expecting := .end_ }
+      else if b = 69 then .ok { r with expecting := .error }
+      else .error .badStatusByte
+    else .error .unexpectedByte
+  | .struct raw =>
+    if r.expecting = .args then
+      let r1 : Rq := { r with calls := r.calls ++ [RqCall.args raw], finished := !w }
+      if r1.finished then .ok { r1 with responses := r1.responses + 1, expecting := .end_ }
+      else .ok { r1 with expecting := .body }
+    else if r.expecting = .error then
+      .ok { r with expecting := .end_, calls := r.calls ++ [RqCall.postBodyError raw] }
+    else .error .unexpectedStruct
+  | .bytes b =>
+    if r.expecting = .body then .ok { r with calls := r.calls ++ [RqCall.body b] }
+    else .error .unexpectedBytes
+  | .end_ =>
+    if r.expecting ≠ .body ∧ r.expecting ≠ .end_ then .error .prematureEnd
+    else
+      -- request_handler.end_received() runs the command's do_end(): finished_reading
+      .ok { r with expecting := .nothing, calls := r.calls ++ [RqCall.end_], finished := true,
+                   responses := if r.responses = 0 then 1 else r.responses }
+
+def Rq.run (w : Bool) (r : Rq) : List Ev → Except RqErr Rq
+  | [] => .ok r
+  | e :: es => match r.step w e with
+    | .error x => .error x
+    | .ok r' => r'.run w es
+
+/-- a conventional request as `ProtocolThreeRequester` writes it (`call`,
+`call_with_body_bytes`, `call_with_body_readv_array` = a body of serialised offsets,
+`call_with_body_stream`: chunks, then `oE s(error)` if the stream raised): no status byte -/
+def reqParts (args : Bytes) (body : RespBody) : List Part :=
+  [.struct args] ++
+  (match body with
+   | .none_ => []
+   | .body b => [.bytes b]
+   | .stream cs err => cs.map .bytes ++
+      (match err with | none => [] | some e => [.byte 69, .struct e]))
+
+/-- what `SmartServerRequestHandler` does with the recorded calls: the body bytes its
+command's `do_end()` finally executes with (`accept_body` chunks joined), `none` if the
+command never runs `do_end`.  `post_body_error_received` is a no-op in the code as found,
+so an aborted stream is executed like a complete one (known finding F16). -/
+def executedBody (calls : List RqCall) : Option Bytes :=
+  if calls.contains RqCall.end_ then
+    some (calls.flatMap fun c => match c with | .body b => b | _ => [])
+  else none
+
+/-! ## protocol 2 client: response parsing (`SmartClientRequestProtocolTwo.read_response_tuple`,
+`read_body_bytes`, `read_streamed_body`) over the whole byte stream the medium delivers
+(`read_line` = up to and including the next newline; the body decoders above) -/
+
+def successLine : Bytes := [115, 117, 99, 99, 101, 115, 115]   -- "success"
+def failedLine : Bytes := [102, 97, 105, 108, 101, 100]         -- "failed"
+
+/-- how the caller reads on after the tuple: nothing, `read_body_bytes`, `read_streamed_body` -/
+inductive V2Kind where
+  | none_ | bytes | stream
+  deriving DecidableEq, Repr
+
+inductive V2Body where
+  | none_
+  | bytes (b : Bytes)
+  | stream (chunks : List Chunk)
+  deriving DecidableEq, Repr
+
+inductive V2Err where
+  | incomplete        -- the stream ends inside the message
+  | badVersion        -- UnexpectedProtocolVersionMarker
+  | badStatus         -- SmartProtocolError("bad protocol status")
+  | badBody           -- the body decoder raised
+  deriving DecidableEq, Repr
+
+structure V2Resp where
+  ok : Bool                  -- `success` / `failed` (failed: ErrorFromSmartServer(args))
+  args : List Bytes
+  body : V2Body
+  deriving DecidableEq, Repr
+
+/-- `response2` without its final newline -/
+def response2Line : Bytes := response2.dropLast
+
+def v2Decode (kind : V2Kind) (data : Bytes) : Except V2Err (V2Resp × Bytes) :=
+  match splitLine data with
+  | none => .error .incomplete
+  | some (ver, r1) =>
+    if ver ≠ response2Line then .error .badVersion
+    else match splitLine r1 with
+      | none => .error .incomplete
+      | some (st, r2) =>
+        match splitLine r2 with
+        | none => .error .incomplete
+        | some (tl, r3) =>
+          let args := splitSoh tl
+          if st = failedLine then .ok (⟨false, args, .none_⟩, r3)
+          else if st ≠ successLine then .error .badStatus
+          else match kind with
+            | .none_ => .ok (⟨true, args, .none_⟩, r3)
+            | .bytes =>
+              match LP.feed LP.init r3 with
+              | .done b u => .ok (⟨true, args, .bytes b⟩, u)
+              | .failed => .error .badBody
+              | _ => .error .incomplete
+            | .stream =>
+              match CK.feed CK.init r3 with
+              | .done cs u => .ok (⟨true, args, .stream cs⟩, u)
+              | .failed _ => .error .badBody
+              | _ => .error .incomplete
+
+/-- `SmartServerRequestProtocolTwo._send_response` -/
+def v2RespEncode (ok : Bool) (args : List Bytes) (body : Option (Sum Bytes (List Bytes × Option (List Bytes)))) :
+    Bytes :=
+  response2 ++ (if ok then successLine else failedLine) ++ [10] ++ encodeTuple args ++
+  (match body with
+   | none => []
+   | some (.inl b) => lpEncode b
+   | some (.inr (cs, err)) => ckEncode cs err)
+
 end BreezyVerif.C29
